@@ -1076,8 +1076,10 @@ def mon_c08(tr: Trace) -> list[Violation]:
         else:
             pubs = [x for x in c.cmds if isinstance(x, C.CommandPublishEvent) and isinstance(x.event, WorkflowFailedEvent)]
             if routed or len(failed) != 1 or failed[0].exception is not fails[0].exception or len(pubs) != 1 or pubs[0].event.exception is not fails[0].exception:
-                out.append(Violation("C08/not_failed_with_original_exception", f"exhausted failure of {step} with no owner/budget (owner {owner}, count {count}) "
-                                     f"did not fail the run with the original exception and a WorkflowFailedEvent", _replay(tr)))
+                out.append(Violation("C08/not_failed_with_original_exception" + (":failure_of_handler_step" if step in maxrec else ""),
+                                     f"exhausted failure of {step} with no owner/budget (owner {owner}, count {count}) "
+                                     f"did not fail the run with the original exception and a WorkflowFailedEvent"
+                                     + (f"; {step} is a @catch_error handler step, routed to {[x.step_name for x in routed]}" if step in maxrec and routed else ""), _replay(tr)))
     # a handler step is entered only with StepFailedEvents of steps it owns, at most max_recoveries times per lineage
     for rec in tr.steps:
         if rec[0] == "enter" and rec[1] in maxrec:
@@ -1085,7 +1087,8 @@ def mon_c08(tr: Trace) -> list[Violation]:
             if sfe is None:
                 out.append(Violation("C08/handler_entered_without_failure", f"handler {rec[1]} entered with a non-failure event", _replay(tr)))
             elif expected_owner(spec, sfe["step"]) != rec[1]:
-                out.append(Violation("C08/wrong_handler_entered", f"handler {rec[1]} entered for a failure of {sfe['step']} owned by {expected_owner(spec, sfe['step'])}", _replay(tr)))
+                out.append(Violation("C08/wrong_handler_entered" + (":failure_of_handler_step" if sfe["step"] in maxrec else ""),
+                                     f"handler {rec[1]} entered for a failure of {sfe['step']} owned by {expected_owner(spec, sfe['step'])}", _replay(tr)))
     # an invocation that suspends in wait_for_event comes back (resolution, timeout) with the recovery counts it had:
     # whatever runs or is queued for the SAME input event afterwards carries the counts recorded at the suspension
     suspended_rc: dict[int, tuple] = {}
@@ -1209,6 +1212,126 @@ def mon_c08(tr: Trace) -> list[Violation]:
                         out.append(Violation("C08/budget_exceeded", f"an attempt of {name} carries recovery count {n} for {h} (max_recoveries={maxrec.get(h)})", _replay(tr)))
                         return out
     return out
+
+
+def c08_layout_rules(names: list[str], handlers: list[dict]) -> dict:
+    """The documented rules for a set of @catch_error declarations, from the LAYOUT alone (decorator docstring,
+    docs/.../retry_steps.md, the property's "never a handler for a handler step"): one wildcard at most; for_steps names
+    existing steps; a step is listed by one scoped handler at most; a handler step (the handler itself, another scoped
+    handler, the wildcard handler) cannot be covered; max_recoveries >= 1.
+    `handlers`: dicts with name / for_steps (None = wildcard) / max_rec; `names`: every step name, handlers included.
+    Returns the labels of the rules the layout breaks (`reject`), and whether the documents leave the layout open
+    (`unspecified`: one handler listing the same step twice)."""
+    kind = {h["name"]: ("wildcard" if h.get("for_steps") is None else "scoped") for h in handlers}
+    reject: list[str] = []
+    unspecified = False
+    if sum(1 for h in handlers if h.get("for_steps") is None) > 1:
+        reject.append("two_wildcards")
+    listed_by: dict[str, list[str]] = {}
+    for h in handlers:
+        fs = h.get("for_steps")
+        if fs is None:
+            continue
+        if len(set(fs)) != len(fs):
+            unspecified = True
+        for t in dict.fromkeys(fs):
+            if t not in names:
+                reject.append("unknown_step")
+            elif t in kind:
+                reject.append("covers_handler_step:" + ("itself" if t == h["name"] else kind[t] + "_handler"))
+            else:
+                listed_by.setdefault(t, []).append(h["name"])
+    if any(len(v) > 1 for v in listed_by.values()):
+        reject.append("step_listed_by_two_handlers")
+    if any(not isinstance(h.get("max_rec", 1), int) or h.get("max_rec", 1) < 1 for h in handlers):
+        reject.append("max_recoveries_below_one")
+    return {"reject": sorted(set(reject)), "unspecified": unspecified, "kind": kind, "listed_by": listed_by}
+
+
+def c08_table_check(names: list[str], handlers: list[dict], accepted: bool, table: dict | None, error: str = "",
+                    strict: bool = True) -> list[tuple[str, str]]:
+    """The routing TABLE against the layout (no run needed).  Either the layout is rejected -- then nothing can be routed --
+    or it is accepted, and then: no handler step has an owner (a failing handler fails the run, its failure never goes to
+    a handler); every other step is owned by the one scoped handler that lists it, else by the one wildcard, else by
+    nobody; a layout in which the owner of a step is not defined (two wildcards, a step listed by two handlers) is not
+    accepted.  `strict`: a layout that breaks no documented rule has to be accepted (only where the caller knows that
+    nothing else about the workflow can be rejected)."""
+    rules = c08_layout_rules(names, handlers)
+    kind, listed_by = rules["kind"], rules["listed_by"]
+    out: list[tuple[str, str]] = []
+    if not accepted:
+        if strict and not rules["reject"] and not rules["unspecified"]:
+            out.append(("C08/documented_layout_rejected", f"the handler layout {[(h['name'], h.get('for_steps')) for h in handlers]} over steps "
+                        f"{names} breaks no documented rule but was rejected: {error[:200]}"))
+        return out
+    table = dict(table or {})
+    hdecl = {h["name"]: h for h in handlers}
+    for hs in sorted(kind):
+        if hs in table:
+            o = table[hs]
+            via = "listed_by" if (hdecl.get(o, {}).get("for_steps") is not None and hs in hdecl[o]["for_steps"]) else "filled_by"
+            who = "itself" if o == hs else f"{kind.get(o, 'unknown')}_handler"
+            out.append((f"C08/handler_step_has_owner:{kind[hs]}_handler_{via}_{who}",
+                        f"layout {[(h['name'], h.get('for_steps')) for h in handlers]} was accepted and handler_for_step maps the HANDLER step "
+                        f"{hs} to {o}: a failure of handler {hs} would be routed to a handler (documented rules broken by the layout: {rules['reject'] or 'none'})"))
+    amb = [r for r in rules["reject"] if r in ("two_wildcards", "step_listed_by_two_handlers")]
+    for r in amb:
+        out.append((f"C08/ambiguous_layout_accepted:{r}", f"layout {[(h['name'], h.get('for_steps')) for h in handlers]} leaves the owner of a step "
+                    f"undefined ({r}) and was accepted; table {table}"))
+    wild = [h["name"] for h in handlers if h.get("for_steps") is None]
+    for s in names:
+        if s in kind:
+            continue
+        claim = listed_by.get(s, [])
+        if len(claim) > 1 or (not claim and len(wild) > 1):
+            continue
+        exp = claim[0] if claim else (wild[0] if wild else None)
+        if table.get(s) != exp:
+            out.append(("C08/table_owner_mismatch:" + ("scoped_owner" if claim else "wildcard_owner" if wild else "no_owner") + "_expected",
+                        f"layout {[(h['name'], h.get('for_steps')) for h in handlers]}: step {s} is to be owned by {exp}, handler_for_step has {table.get(s)}"))
+            break
+    stray = sorted(k for k in table if k not in names)
+    if stray:
+        out.append(("C08/table_owner_mismatch:entry_for_unknown_step", f"handler_for_step has entries for names that are no steps: {stray}"))
+    return out
+
+
+def _c08_layout_of(spec: dict) -> tuple[list[str], list[dict]]:
+    names = [s["name"] for s in spec["steps"]]
+    handlers = [{"name": s["name"], "for_steps": s.get("for_steps"), "max_rec": s.get("max_rec", 1)} for s in spec["steps"] if s.get("role") == "handler"]
+    return names, handlers
+
+
+def mon_c08_layout(tr: Trace, strict: bool = False) -> list[Violation]:
+    """(1) the table the workflow built against the layout of the spec (`c08_table_check`); (2) at run time, no handler is
+    ever entered with the failure of a handler step, whatever the table says."""
+    out: list[Violation] = []
+    spec = tr.spec
+    if spec.get("disable_validation") or spec.get("_resumed"):
+        return out
+    names, handlers = _c08_layout_of(spec)
+    if not handlers:
+        return out
+    accepted = tr.outcome[0] != "invalid"
+    tab = getattr(tr, "handler_table", None)
+    if accepted and tab is None:
+        return out
+    for sig, what in c08_table_check(names, handlers, accepted, (tab or {}).get("handler_for_step"), error=str(tr.outcome[1]) if not accepted else "",
+                                     strict=strict):
+        out.append(Violation(sig, what, _replay(tr)))
+    kind = {h["name"]: ("wildcard" if h["for_steps"] is None else "scoped") for h in handlers}
+    for rec in tr.steps:
+        if rec[0] == "enter" and rec[1] in kind and rec[5].get("sfe") and rec[5]["sfe"]["step"] in kind:
+            f = rec[5]["sfe"]["step"]
+            out.append(Violation(f"C08/failure_of_handler_step_routed_to_handler:{kind[f]}_handler_to_" + ("itself" if f == rec[1] else f"{kind[rec[1]]}_handler"),
+                                 f"handler {rec[1]} was entered with StepFailedEvent(step_name={f!r}, exception={rec[5]['sfe']['exc']!r}): {f} is a @catch_error "
+                                 f"handler step; its failure has to fail the run with that exception (outcome of the run: {tr.outcome[0]})", _replay(tr)))
+            break
+    return out
+
+
+def mon_c08_layout_strict(tr: Trace) -> list[Violation]:
+    return mon_c08_layout(tr, strict=True)
 
 
 MONITORS: dict[str, Callable[[Trace], list[Violation]]] = {
